@@ -73,7 +73,14 @@ class Source:
                 self.normalised = normalize.normalise(rel, self.tree, localnames.table().get(rel, {}).get("__inventory__"))
                 self.renamed = localnames.recover(rel, self.tree, self.low)
                 if localnames.table().get(rel):
-                    n_t = normalize.inline_new_temps(self.tree, localnames.table().get(rel, {}), self.low.ctype)
+                    n_t = 0
+                    for _round in range(8):
+                        k_t = normalize.inline_new_temps(self.tree, localnames.table().get(rel, {}),
+                                                       lambda sc_, nm_: self.low.resolve(self.low.ctype(sc_, nm_).replace("const ", "").strip())
+                                                       if "[" not in self.low.ctype(sc_, nm_) else self.low.ctype(sc_, nm_))
+                        n_t += k_t
+                        if not k_t:
+                            break
                     if n_t:
                         self.normalised["temporaries"] = n_t
                         normalize.finish(self.tree, localnames.table().get(rel, {}).get("__inventory__"))
@@ -85,7 +92,12 @@ class Source:
                 self.normalised = normalize.normalise(rel, self.tree, localnames.table().get(rel, {}).get("__inventory__"))
                 # ... and renames of local variables (localnames.py), then temporaries the reference did not have
                 self.renamed = localnames.recover(rel, self.tree)
-                n_t = normalize.inline_new_temps(self.tree, localnames.table().get(rel, {})) if localnames.table().get(rel) else 0
+                n_t = 0
+                for _round in range(8 if localnames.table().get(rel) else 0):
+                    k_t = normalize.inline_new_temps(self.tree, localnames.table().get(rel, {}))
+                    n_t += k_t
+                    if not k_t:
+                        break
                 if n_t:
                     self.normalised["temporaries"] = n_t
                     normalize.finish(self.tree, localnames.table().get(rel, {}).get("__inventory__"))
@@ -94,6 +106,12 @@ class Source:
         except SyntaxError as e:
             raise AnalysisError(f"cannot parse {rel}:{e.lineno}: {e.msg}")
         localnames.orient_comparisons(self.tree)
+        # how often the reference function stored each target (exprnorm.has_code: an overwritten statement is not "present")
+        sc_ = (localnames.table().get(rel, {}).get("__inventory__") or {}).get("store_counts")
+        if sc_ is not None:
+            for q_, fn_ in pyxfront.iter_funcs(self.tree):
+                if q_ in sc_:
+                    fn_._ref_store_counts = sc_[q_]
         from . import exprnorm as _en
         _en.register_enums(self.tree)
         from . import alias as _al
@@ -113,6 +131,7 @@ class Source:
             for c in new.values():
                 c.pop("decorators", None)
         self.outside_subset = subset.flags(new, inv["census"])
+        self.tree._outside_subset = set(self.outside_subset)
         if "<module>" in self.outside_subset:
             raise AnalysisError(f"{self.rel}: the module body is outside the analysed subset of Python: {self.outside_subset['<module>']}")
 
@@ -392,6 +411,11 @@ def run_property(prop, tier, overrides=None, repo=None):
     mod = __import__(f"sa.props.{prop}", fromlist=["run"])
     ctx = Ctx(prop, tier, overrides, repo)
     mod.run(ctx)
+    # every Cython source the property read: its C declarations still hold the values the reference declarations held
+    from . import lints as _lints
+    for rel_ in sorted(ctx.files):
+        if rel_.endswith(".pyx") and rel_ in ctx._cache:
+            _lints.declared_types_keep_values(ctx, rel_)
     return ctx, mod
 
 
